@@ -372,15 +372,151 @@ Fixpoint dyns_of (l : list storage) : option (list dyn) :=
   | _ => None
   end.
 
+(* result of try_from_storage(..).ok()? / create_sample: Ok (Some v), Ok None
+   (the conversion gives up), or a panic (`expect` in the named-field union arm). *)
+Definition obind {A B} (r : res (option A)) (f : A -> res (option B)) : res (option B) :=
+  match r with
+  | Ok (Some a) => f a
+  | Ok None => Ok None
+  | Err c => Err c
+  | Panic s => Panic s
+  end.
+Notation "x <-? r ;; k" := (obind r (fun x => k)) (at level 61, r at next level, right associativity).
+
+(* The loops of the expansion, with the conversion of the member type as a
+   parameter (the recursive functions below instantiate it with themselves). *)
+Section Loops.
+  Variable to_elem : value -> res storage.                 (* into_storage of the element / member type *)
+  Variable from_elem : storage -> res (option value).      (* try_from_storage(..).ok() *)
+
+  (* Vec<T> / [T; N] of a user type: self.into_iter().map(create_dynamic_sample).collect() *)
+  Fixpoint seq_to (l : list value) : res (list storage) :=
+    match l with
+    | [] => Ok []
+    | x :: r => s <- to_elem x ;; ss <- seq_to r ;; Ok (s :: ss)
+    end.
+  (* x.iter_mut().map(T::create_sample).collect::<Option<Vec<_>>>() *)
+  Fixpoint seq_from (ds : list dyn) : res (option (list value)) :=
+    match ds with
+    | [] => Ok (Some [])
+    | d :: r => x <-? from_elem (SComplex d) ;; xs <-? seq_from r ;; Ok (Some (x :: xs))
+    end.
+End Loops.
+
+Section StructLoops.
+  Variable to_rec : ty -> value -> res storage.
+  Variable from_rec : ty -> storage -> res (option value).
+  Variable h : shead.
+
+  (* create_dynamic_sample of a struct: one statement per member (type_support.rs:200-283) *)
+  Fixpoint struct_to (ms : list (mhead * ty)) (ids : list Z) (fs : list value) (acc : dyn) : res dyn :=
+    match ms, ids, fs with
+    | [], _, [] => Ok acc
+    | (m, t') :: ms', id :: ids', f :: fs' =>
+        if m_ns m then struct_to ms' ids' fs' acc
+        else if treated_optional h m && value_eqb f (member_default m t') then struct_to ms' ids' fs' acc
+        else s <- to_rec t' f ;; struct_to ms' ids' fs' (dset id s acc)
+    | _, _, _ => Err 1
+    end.
+
+  (* create_sample of a struct: the fields of `Self { .. }` in declaration order *)
+  Fixpoint struct_from (ms : list (mhead * ty)) (ids : list Z) (src : dyn) : res (option (list value)) :=
+    match ms, ids with
+    | [], _ => Ok (Some [])
+    | (m, t') :: ms', id :: ids' =>
+        if m_ns m then
+          fs <-? struct_from ms' ids' src ;; Ok (Some (member_default m t' :: fs))
+        else if treated_optional h m then
+          match dremove id src with
+          | None => fs <-? struct_from ms' ids' src ;; Ok (Some (member_default m t' :: fs))
+          | Some (x, src') => f <-? from_rec t' x ;; fs <-? struct_from ms' ids' src' ;; Ok (Some (f :: fs))
+          end
+        else match m_tc m with
+             | Some TcUseDefault =>
+                 match dremove id src with
+                 | None => fs <-? struct_from ms' ids' src ;; Ok (Some (member_default m t' :: fs))
+                 | Some (x, src') =>
+                     match from_rec t' x with
+                     | Ok (Some f) => fs <-? struct_from ms' ids' src' ;; Ok (Some (f :: fs))
+                     | Ok None => fs <-? struct_from ms' ids' src' ;; Ok (Some (member_default m t' :: fs))
+                     | Err c => Err c
+                     | Panic c => Panic c
+                     end
+                 end
+             | _ =>
+                 match dremove id src with
+                 | None => Ok None
+                 | Some (x, src') => f <-? from_rec t' x ;; fs <-? struct_from ms' ids' src' ;; Ok (Some (f :: fs))
+                 end
+             end
+    | _, _ => Err 2
+    end.
+End StructLoops.
+
+Section UnionLoops.
+  Variable to_rec : ty -> value -> res storage.
+  Variable from_rec : ty -> storage -> res (option value).
+  Variable dp : prim.                                     (* the discriminator type *)
+
+  (* create_dynamic_sample of a union: `match self { Self::V(a) => {set 0; set idx+1} .. }` *)
+  Fixpoint union_to (i : nat) (p : option value) (vs : list (vhead * option ty)) (idx : nat) : res dyn :=
+    match vs with
+    | [] => Err 1
+    | (vh, pt) :: vs' =>
+        if Nat.eqb idx i then
+          let disc := (0, SPrim dp (hd 0 (variant_labels idx vh))) in
+          match pt, p with
+          | None, None => Ok [disc]
+          | Some t', Some x => s <- to_rec t' x ;; Ok (dset (Z.of_nat (S idx)) s [disc])
+          | _, _ => Err 1
+          end
+        else union_to i p vs' (S idx)
+    end.
+
+  (* create_sample of a union: `match disc { l0 => V0(..), .., _ => Vdefault(..) | return None }`,
+     the arms in declaration order (type_support.rs:426-430, 529-531) *)
+  Fixpoint union_from (z : Z) (src' : dyn) (vs : list (vhead * option ty)) (idx : nat) : res (option value) :=
+    match vs with
+    | [] => Ok None
+    | (vh, pt) :: vs' =>
+        if v_default vh || (hd 0 (variant_labels idx vh) =? z) then
+          match pt with
+          | None => Ok (Some (VUnion idx None))
+          | Some t' =>
+              match v_field vh with
+              | None =>
+                  match dremove (Z.of_nat (S idx)) src' with
+                  | None => Ok None
+                  | Some (x, _) => f <-? from_rec t' x ;; Ok (Some (VUnion idx (Some f)))
+                  end
+              | Some _ =>
+                  (* .expect("Must exist") / .expect("Must match") *)
+                  match dremove (Z.of_nat (S idx)) src' with
+                  | None => Panic 2
+                  | Some (x, _) =>
+                      match from_rec t' x with
+                      | Ok (Some f) => Ok (Some (VUnion idx (Some f)))
+                      | Ok None => Panic 3
+                      | Err c => Err c
+                      | Panic c => Panic c
+                      end
+                  end
+              end
+          end
+        else union_from z src' vs' (S idx)
+    end.
+End UnionLoops.
+
 (* Err 1: the value is not of the type; Err 2: the declaration does not compile;
    Panic 1: `Option::None` reaches into_storage (data_storage.rs:667). *)
+Definition prim_seq_to (e : ty) (l : list value) : res storage :=
+  match e with
+  | TPrim p => match prims_of l with Some zs => Ok (SSeqPrim p zs) | None => Err 1 end
+  | TString => match strs_of l with Some ss => Ok (SSeqStr ss) | None => Err 1 end
+  | _ => Err 2
+  end.
+
 Fixpoint to_st (t : ty) (v : value) {struct t} : res storage :=
-  let seq (e : ty) (l : list value) : res storage :=
-    match e with
-    | TPrim p => match prims_of l with Some zs => Ok (SSeqPrim p zs) | None => Err 1 end
-    | TString => match strs_of l with Some ss => Ok (SSeqStr ss) | None => Err 1 end
-    | _ => Err 2
-    end in
   match t with
   | TPrim p => match v with VPrim z => Ok (SPrim p z) | _ => Err 1 end
   | TString => match v with VStr s => Ok (SStr s) | _ => Err 1 end
@@ -388,10 +524,9 @@ Fixpoint to_st (t : ty) (v : value) {struct t} : res storage :=
       match v with
       | VList l =>
           if is_complex e then
-            ss <- (fix go (l : list value) : res (list storage) :=
-                     match l with [] => Ok [] | x :: r => s <- to_st e x ;; ss <- go r ;; Ok (s :: ss) end) l ;;
+            ss <- seq_to (to_st e) l ;;
             match dyns_of ss with Some ds => Ok (SSeqComplex ds) | None => Err 2 end
-          else seq e l
+          else prim_seq_to e l
       | _ => Err 1
       end
   | TArr e n =>
@@ -399,10 +534,9 @@ Fixpoint to_st (t : ty) (v : value) {struct t} : res storage :=
       | VList l =>
           if negb (Nat.eqb (length l) n) then Err 1 else
           if is_complex e then
-            ss <- (fix go (l : list value) : res (list storage) :=
-                     match l with [] => Ok [] | x :: r => s <- to_st e x ;; ss <- go r ;; Ok (s :: ss) end) l ;;
+            ss <- seq_to (to_st e) l ;;
             match dyns_of ss with Some ds => Ok (SSeqComplex ds) | None => Err 2 end
-          else seq e l
+          else prim_seq_to e l
       | _ => Err 1
       end
   | TOpt e =>
@@ -413,17 +547,7 @@ Fixpoint to_st (t : ty) (v : value) {struct t} : res storage :=
       end
   | TStruct h ms =>
       match v with
-      | VStruct fs =>
-          d <- (fix go (ms : list (mhead * ty)) (ids : list Z) (fs : list value) (acc : dyn) : res dyn :=
-                  match ms, ids, fs with
-                  | [], _, [] => Ok acc
-                  | (m, t') :: ms', id :: ids', f :: fs' =>
-                      if m_ns m then go ms' ids' fs' acc
-                      else if treated_optional h m && value_eqb f (member_default m t') then go ms' ids' fs' acc
-                      else s <- to_st t' f ;; go ms' ids' fs' (dset id s acc)
-                  | _, _, _ => Err 1
-                  end) ms (struct_ids h (map fst ms)) fs [] ;;
-          Ok (SComplex d)
+      | VStruct fs => d <- struct_to to_st h ms (struct_ids h (map fst ms)) fs [] ;; Ok (SComplex d)
       | _ => Err 1
       end
   | TEnum e =>
@@ -437,21 +561,7 @@ Fixpoint to_st (t : ty) (v : value) {struct t} : res storage :=
       end
   | TUnion h vs =>
       match v with
-      | VUnion i p =>
-          d <- (fix go (vs : list (vhead * option ty)) (idx : nat) : res dyn :=
-                  match vs with
-                  | [] => Err 1
-                  | (vh, pt) :: vs' =>
-                      if Nat.eqb idx i then
-                        let disc := (0, SPrim (u_disc h) (hd 0 (variant_labels idx vh))) in
-                        match pt, p with
-                        | None, None => Ok [disc]
-                        | Some t', Some x => s <- to_st t' x ;; Ok (dset (Z.of_nat (S idx)) s [disc])
-                        | _, _ => Err 1
-                        end
-                      else go vs' (S idx)
-                  end) vs O ;;
-          Ok (SComplex d)
+      | VUnion i p => d <- union_to to_st (u_disc h) i p vs O ;; Ok (SComplex d)
       | _ => Err 1
       end
   end.
@@ -463,89 +573,32 @@ Definition to_dyn (t : ty) (v : value) : res dyn :=
 
 (* ------------------------------------------------- DataStorage / dyn -> value *)
 
-(* result of try_from_storage(..).ok()? / create_sample: Ok (Some v), Ok None
-   (the conversion gives up), or a panic (`expect` in the named-field union arm). *)
-Definition obind {A B} (r : res (option A)) (f : A -> res (option B)) : res (option B) :=
-  match r with
-  | Ok (Some a) => f a
-  | Ok None => Ok None
-  | Err c => Err c
-  | Panic s => Panic s
+Definition prim_seq_from (e : ty) (s : storage) : res (option (list value)) :=
+  match e, s with
+  | TPrim p, SSeqPrim q zs => if prim_eqb p q then Ok (Some (map VPrim zs)) else Ok None
+  | TString, SSeqStr ss => Ok (Some (map VStr ss))
+  | _, _ => Ok None
   end.
-Notation "x <-? r ;; k" := (obind r (fun x => k)) (at level 61, r at next level, right associativity).
 
 Fixpoint from_st (t : ty) (s : storage) {struct t} : res (option value) :=
-  let seq (e : ty) (s : storage) : res (option (list value)) :=
-    match e, s with
-    | TPrim p, SSeqPrim q zs => if prim_eqb p q then Ok (Some (map VPrim zs)) else Ok None
-    | TString, SSeqStr ss => Ok (Some (map VStr ss))
-    | _, _ => Ok None
-    end in
   match t with
   | TPrim p => match s with SPrim q z => if prim_eqb p q then Ok (Some (VPrim z)) else Ok None | _ => Ok None end
   | TString => match s with SStr x => Ok (Some (VStr x)) | _ => Ok None end
   | TVec e =>
-      if is_complex e then
-        match s with
-        | SSeqComplex ds =>
-            l <-? (fix go (ds : list dyn) : res (option (list value)) :=
-                     match ds with
-                     | [] => Ok (Some [])
-                     | d :: r => x <-? from_st e (SComplex d) ;; xs <-? go r ;; Ok (Some (x :: xs))
-                     end) ds ;;
-            Ok (Some (VList l))
-        | _ => Ok None
-        end
-      else (l <-? seq e s ;; Ok (Some (VList l)))
+      l <-? (if is_complex e then
+               match s with SSeqComplex ds => seq_from (from_st e) ds | _ => Ok None end
+             else prim_seq_from e s) ;;
+      Ok (Some (VList l))
   | TArr e n =>
       l <-? (if is_complex e then
-               match s with
-               | SSeqComplex ds =>
-                   (fix go (ds : list dyn) : res (option (list value)) :=
-                      match ds with
-                      | [] => Ok (Some [])
-                      | d :: r => x <-? from_st e (SComplex d) ;; xs <-? go r ;; Ok (Some (x :: xs))
-                      end) ds
-               | _ => Ok None
-               end
-             else seq e s) ;;
+               match s with SSeqComplex ds => seq_from (from_st e) ds | _ => Ok None end
+             else prim_seq_from e s) ;;
       if Nat.eqb (length l) n then Ok (Some (VList l)) else Ok None
   | TOpt e => x <-? from_st e s ;; Ok (Some (VOpt (Some x)))
   | TStruct h ms =>
       match s with
       | SComplex src =>
-          fs <-? (fix go (ms : list (mhead * ty)) (ids : list Z) (src : dyn) : res (option (list value)) :=
-                    match ms, ids with
-                    | [], _ => Ok (Some [])
-                    | (m, t') :: ms', id :: ids' =>
-                        if m_ns m then
-                          fs <-? go ms' ids' src ;; Ok (Some (member_default m t' :: fs))
-                        else if treated_optional h m then
-                          match dremove id src with
-                          | None => fs <-? go ms' ids' src ;; Ok (Some (member_default m t' :: fs))
-                          | Some (x, src') => f <-? from_st t' x ;; fs <-? go ms' ids' src' ;; Ok (Some (f :: fs))
-                          end
-                        else match m_tc m with
-                             | Some TcUseDefault =>
-                                 match dremove id src with
-                                 | None => fs <-? go ms' ids' src ;; Ok (Some (member_default m t' :: fs))
-                                 | Some (x, src') =>
-                                     match from_st t' x with
-                                     | Ok (Some f) => fs <-? go ms' ids' src' ;; Ok (Some (f :: fs))
-                                     | Ok None => fs <-? go ms' ids' src' ;; Ok (Some (member_default m t' :: fs))
-                                     | Err c => Err c
-                                     | Panic c => Panic c
-                                     end
-                                 end
-                             | _ =>
-                                 match dremove id src with
-                                 | None => Ok None
-                                 | Some (x, src') => f <-? from_st t' x ;; fs <-? go ms' ids' src' ;; Ok (Some (f :: fs))
-                                 end
-                             end
-                    | _, _ => Err 2
-                    end) ms (struct_ids h (map fst ms)) src ;;
-          Ok (Some (VStruct fs))
+          fs <-? struct_from from_st h ms (struct_ids h (map fst ms)) src ;; Ok (Some (VStruct fs))
       | _ => Ok None
       end
   | TEnum e =>
@@ -569,38 +622,7 @@ Fixpoint from_st (t : ty) (s : storage) {struct t} : res (option value) :=
       | SComplex src =>
           match dremove 0 src with
           | Some (SPrim q z, src') =>
-              if prim_eqb q (u_disc h) then
-                (fix go (vs : list (vhead * option ty)) (idx : nat) : res (option value) :=
-                   match vs with
-                   | [] => Ok None                          (* `_ => return None` *)
-                   | (vh, pt) :: vs' =>
-                       if v_default vh || (hd 0 (variant_labels idx vh) =? z) then
-                         match pt with
-                         | None => Ok (Some (VUnion idx None))
-                         | Some t' =>
-                             match v_field vh with
-                             | None =>
-                                 match dremove (Z.of_nat (S idx)) src' with
-                                 | None => Ok None
-                                 | Some (x, _) => f <-? from_st t' x ;; Ok (Some (VUnion idx (Some f)))
-                                 end
-                             | Some _ =>
-                                 (* .expect("Must exist") / .expect("Must match") *)
-                                 match dremove (Z.of_nat (S idx)) src' with
-                                 | None => Panic 2
-                                 | Some (x, _) =>
-                                     match from_st t' x with
-                                     | Ok (Some f) => Ok (Some (VUnion idx (Some f)))
-                                     | Ok None => Panic 3
-                                     | Err c => Err c
-                                     | Panic c => Panic c
-                                     end
-                                 end
-                             end
-                         end
-                       else go vs' (S idx)
-                   end) vs O
-              else Ok None
+              if prim_eqb q (u_disc h) then union_from from_st z src' vs O else Ok None
           | _ => Ok None
           end
       | _ => Ok None
@@ -635,6 +657,29 @@ Definition prim_ok (p : prim) (z : Z) : bool :=
   | PChar => ((0 <=? z) && (z <? 55296)) || ((57343 <? z) && (z <=? 1114111))
   end.
 
+Section TypingLoops.
+  Variable rec : ty -> value -> bool.
+  Fixpoint fields_all (ms : list (mhead * ty)) (fs : list value) : bool :=
+    match ms, fs with
+    | [], [] => true
+    | (_, t') :: ms', f :: fs' => rec t' f && fields_all ms' fs'
+    | _, _ => false
+    end.
+  (* the payload of variant i *)
+  Fixpoint variant_payload (i : nat) (p : option value) (vs : list (vhead * option ty)) (idx : nat) : bool :=
+    match vs with
+    | [] => false
+    | (_, pt) :: vs' =>
+        if Nat.eqb idx i then
+          match pt, p with
+          | None, None => true
+          | Some t', Some x => rec t' x
+          | _, _ => false
+          end
+        else variant_payload i p vs' (S idx)
+    end.
+End TypingLoops.
+
 Fixpoint has_type (t : ty) (v : value) {struct t} : bool :=
   match t with
   | TPrim p => match v with VPrim z => prim_ok p z | _ => false end
@@ -642,38 +687,33 @@ Fixpoint has_type (t : ty) (v : value) {struct t} : bool :=
   | TVec e => match v with VList l => forallb (has_type e) l | _ => false end
   | TArr e n => match v with VList l => Nat.eqb (length l) n && forallb (has_type e) l | _ => false end
   | TOpt e => match v with VOpt None => true | VOpt (Some x) => has_type e x | _ => false end
-  | TStruct h ms =>
-      match v with
-      | VStruct fs =>
-          (fix go (ms : list (mhead * ty)) (fs : list value) : bool :=
-             match ms, fs with
-             | [], [] => true
-             | (_, t') :: ms', f :: fs' => has_type t' f && go ms' fs'
-             | _, _ => false
-             end) ms fs
-      | _ => false
-      end
+  | TStruct h ms => match v with VStruct fs => fields_all has_type ms fs | _ => false end
   | TEnum e => match v with VEnum i => Nat.ltb i (length (e_variants e)) | _ => false end
-  | TUnion h vs =>
-      match v with
-      | VUnion i p =>
-          (fix go (vs : list (vhead * option ty)) (idx : nat) : bool :=
-             match vs with
-             | [] => false
-             | (_, pt) :: vs' =>
-                 if Nat.eqb idx i then
-                   match pt, p with
-                   | None, None => true
-                   | Some t', Some x => has_type t' x
-                   | _, _ => false
-                   end
-                 else go vs' (S idx)
-             end) vs O
-      | _ => false
-      end
+  | TUnion h vs => match v with VUnion i p => variant_payload has_type i p vs O | _ => false end
   end.
 
 (* ------------------------------------- the value a round trip is expected to give *)
+
+Section EraseLoops.
+  Variable rec : ty -> value -> value.
+  Variable h : shead.
+  Fixpoint erase_fields (ms : list (mhead * ty)) (fs : list value) : list value :=
+    match ms, fs with
+    | (m, t') :: ms', f :: fs' =>
+        (if m_ns m then member_default m t'
+         else if treated_optional h m && value_eqb f (member_default m t') then f
+         else rec t' f) :: erase_fields ms' fs'
+    | _, _ => fs
+    end.
+  Fixpoint erase_payload (i : nat) (x : value) (vs : list (vhead * option ty)) (idx : nat) : value :=
+    match vs with
+    | [] => VUnion i (Some x)
+    | (_, pt) :: vs' =>
+        if Nat.eqb idx i then
+          match pt with Some t' => VUnion i (Some (rec t' x)) | None => VUnion i (Some x) end
+        else erase_payload i x vs' (S idx)
+    end.
+End EraseLoops.
 
 (* non_serialized members come back as their default; a member that is skipped
    because it equals its default comes back as that default, unchanged. *)
@@ -682,49 +722,63 @@ Fixpoint erase_ns (t : ty) (v : value) {struct t} : value :=
   | TPrim _ | TString | TEnum _ => v
   | TVec e | TArr e _ => match v with VList l => VList (map (erase_ns e) l) | _ => v end
   | TOpt e => match v with VOpt (Some x) => VOpt (Some (erase_ns e x)) | _ => v end
-  | TStruct h ms =>
-      match v with
-      | VStruct fs =>
-          VStruct ((fix go (ms : list (mhead * ty)) (fs : list value) : list value :=
-                      match ms, fs with
-                      | (m, t') :: ms', f :: fs' =>
-                          (if m_ns m then member_default m t'
-                           else if treated_optional h m && value_eqb f (member_default m t') then f
-                           else erase_ns t' f) :: go ms' fs'
-                      | _, _ => fs
-                      end) ms fs)
-      | _ => v
-      end
-  | TUnion h vs =>
-      match v with
-      | VUnion i (Some x) =>
-          (fix go (vs : list (vhead * option ty)) (idx : nat) : value :=
-             match vs with
-             | [] => v
-             | (_, pt) :: vs' =>
-                 if Nat.eqb idx i then
-                   match pt with Some t' => VUnion i (Some (erase_ns t' x)) | None => v end
-                 else go vs' (S idx)
-             end) vs O
-      | _ => v
-      end
+  | TStruct h ms => match v with VStruct fs => VStruct (erase_fields erase_ns h ms fs) | _ => v end
+  | TUnion h vs => match v with VUnion i (Some x) => erase_payload erase_ns i x vs O | _ => v end
   end.
+
+Section DeclLoops.
+  Variable rec : ty -> bool.
+  Fixpoint members_all (ms : list (mhead * ty)) : bool :=
+    match ms with [] => true | (_, t') :: r => rec t' && members_all r end.
+  Fixpoint variants_all (vs : list (vhead * option ty)) : bool :=
+    match vs with
+    | [] => true
+    | (_, Some t') :: r => rec t' && variants_all r
+    | (_, None) :: r => variants_all r
+    end.
+End DeclLoops.
 
 (* no non_serialized member anywhere in the declaration *)
 Fixpoint no_ns (t : ty) : bool :=
   match t with
   | TPrim _ | TString | TEnum _ => true
   | TVec e | TArr e _ | TOpt e => no_ns e
-  | TStruct _ ms =>
-      (fix go (ms : list (mhead * ty)) : bool :=
-         match ms with [] => true | (m, t') :: r => negb (m_ns m) && no_ns t' && go r end) ms
-  | TUnion _ vs =>
-      (fix go (vs : list (vhead * option ty)) : bool :=
-         match vs with
-         | [] => true
-         | (_, Some t') :: r => no_ns t' && go r
-         | (_, None) :: r => go r
-         end) vs
+  | TStruct _ ms => forallb (fun m => negb (m_ns (fst m))) ms && members_all no_ns ms
+  | TUnion _ vs => variants_all no_ns vs
+  end.
+
+(* a `None` that create_dynamic_sample is documented to reject (data_storage.rs:667):
+   an Option member without #[dust_dds(optional)], or one whose default_value is not None *)
+Section NoneLoops.
+  Variable rec : ty -> value -> bool.
+  Variable h : shead.
+  Fixpoint fields_expose (ms : list (mhead * ty)) (fs : list value) : bool :=
+    match ms, fs with
+    | (m, t') :: ms', f :: fs' =>
+        (if m_ns m then false
+         else if treated_optional h m && value_eqb f (member_default m t') then false
+         else rec t' f) || fields_expose ms' fs'
+    | _, _ => false
+    end.
+End NoneLoops.
+Section NoneLoops2.
+  Variable rec : ty -> value -> bool.
+  Fixpoint payload_exposes (i : nat) (x : value) (vs : list (vhead * option ty)) (idx : nat) : bool :=
+    match vs with
+    | [] => false
+    | (_, pt) :: vs' =>
+        if Nat.eqb idx i then match pt with Some t' => rec t' x | None => false end
+        else payload_exposes i x vs' (S idx)
+    end.
+End NoneLoops2.
+
+Fixpoint exposes_none (t : ty) (v : value) {struct t} : bool :=
+  match t with
+  | TPrim _ | TString | TEnum _ => false
+  | TVec e | TArr e _ => match v with VList l => existsb (exposes_none e) l | _ => false end
+  | TOpt e => match v with VOpt None => true | VOpt (Some x) => exposes_none e x | _ => false end
+  | TStruct h ms => match v with VStruct fs => fields_expose exposes_none h ms fs | _ => false end
+  | TUnion h vs => match v with VUnion i (Some x) => payload_exposes exposes_none i x vs O | _ => false end
   end.
 
 (* ------------------------------------------------- well-formed declarations *)
@@ -753,25 +807,13 @@ Definition enum_ok (e : edecl) : bool :=
 
 (* declarations on which the round trip is claimed: member ids pairwise distinct,
    enum discriminants distinct and within the bit bound, union first labels
-   distinct and within the discriminator type, default variant last, only
-   supported element types *)
+   distinct, default variant last, only supported element types *)
 Fixpoint wf_ty (t : ty) : bool :=
   match t with
   | TPrim _ | TString => true
   | TVec e | TArr e _ => elem_ok e && wf_ty e
   | TOpt e => wf_ty e
-  | TStruct h ms =>
-      nodupb (struct_ids h (map fst ms)) &&
-      (fix go (ms : list (mhead * ty)) : bool :=
-         match ms with [] => true | (_, t') :: r => wf_ty t' && go r end) ms
+  | TStruct h ms => nodupb (struct_ids h (map fst ms)) && members_all wf_ty ms
   | TEnum e => enum_ok e
-  | TUnion h vs =>
-      is_int_prim (u_disc h) && nodupb (first_labels 0 vs) &&
-      forallb (prim_ok (u_disc h)) (first_labels 0 vs) && default_only_last vs &&
-      (fix go (vs : list (vhead * option ty)) : bool :=
-         match vs with
-         | [] => true
-         | (_, Some t') :: r => wf_ty t' && go r
-         | (_, None) :: r => go r
-         end) vs
+  | TUnion h vs => nodupb (first_labels 0 vs) && default_only_last vs && variants_all wf_ty vs
   end.
